@@ -106,10 +106,47 @@ def fn_code_hash(fn: Callable, salt: str = None, environment: bytes = None) -> s
     if hasattr(fn, "__code__"):
         code = getattr(fn, "__code__")  # type: code
         result = hash_if_code_object(code)
+        # Default parameter values live on the function object, not in its code object.
+        # Fold them in (only when there are any, so other functions keep their hash).
+        defaults = _describe_defaults(fn)
+        if defaults:
+            result = hashlib.sha256(
+                (result + defaults).encode("utf-8")
+            ).hexdigest()[0:16]
         return result
     else:
         # If we can't get the code for the function, then return the name of the function
         return repr(fn)
+
+
+def _describe_defaults(fn: Callable) -> Optional[str]:
+    """
+    Stable description of the default parameter values of `fn`, or `None` if it has none.
+    Values of the types Memento knows how to serialize are described by value; memento
+    functions by name; anything else only by its type, since an arbitrary repr() may embed
+    a memory address and would change the hash on every run.
+
+    """
+
+    def describe(value) -> str:
+        if isinstance(value, MementoFunctionType):
+            return "fn:" + str(value.qualified_name_without_version)
+        try:
+            return json.dumps(MementoCodec.encode_arg(value), sort_keys=True)
+        except (TypeError, ValueError):
+            return "type:" + type(value).__qualname__
+
+    defaults = getattr(fn, "__defaults__", None)
+    kwdefaults = getattr(fn, "__kwdefaults__", None)
+    if not defaults and not kwdefaults:
+        return None
+    return json.dumps(
+        {
+            "defaults": [describe(v) for v in defaults or ()],
+            "kwdefaults": {k: describe(v) for (k, v) in (kwdefaults or {}).items()},
+        },
+        sort_keys=True,
+    )
 
 
 def resolve_to_symbolic_names(
